@@ -241,9 +241,40 @@ def check_reify_threading(ctx, lib, rule):
         ctx.expect(ok, rule, key + "|children", site_of(fn), "reify of a compound must fold over all children with the map threaded: acc = acc.reify(child); found %s" % show(t, maxdepth=8)[:300])
 
 
+def check_is_anyvar(ctx, lib, rule):
+    """purify keeps a disequality only if it mentions a variable *of the answer*: is_anyvar(v) is
+    true for a variable exactly when the reifying map gave it a name (contains_key) that is still a
+    variable - a hidden fresh variable that never reached the answer has no entry and must not count
+    (its constraint would be reported with a raw, un-reified variable)."""
+    fn = streams.getfn(ctx, lib, rule, "crate::state::substitution::SMap::is_anyvar")
+    if not fn:
+        return
+    t = sym.Evaluator(lib, inline=lambda p, f: False).fn_term(fn)
+    eff, m = tables.flatten(t)
+    ok = bool(m) and m[0] == "match" and m[1][:2] == ("param", 1)
+    why = "expected a match on the term"
+    if ok:
+        arms = [(p, g, b) for p, g, b in m[2] if any(c.endswith("LTermInner::Var") for c in tables.pat_ctors(p))]
+        ok = len(arms) == 1
+        why = "expected one arm for variables"
+        if ok:
+            p, g, b = arms[0]
+            guarded = g is not None and g[0] == "call" and suffix_match(g[1], "contains_key") and g[2][0][:2] == ("param", 0) and g[2][1][:2] == ("param", 1)
+            r = tables.result(b)
+            inner_guard = r[0] == "binop" and r[1] == "And" and any(c[0] == "call" and suffix_match(c[1], "contains_key") for c in (r[2], r[3]))
+            body_ok = any(c[0] == "call" and suffix_match(c[1], "is_var") for c in sym.subterms(r)) and any(suffix_match(c[1], "SMap::walk") for c in sym.calls(r))
+            ok = (guarded or inner_guard) and body_ok
+            why = "the variable arm must be `contains_key(v) && walk(v).is_var()`; found guard %s, body %s" % (show(g, maxdepth=3) if g else None, show(r, maxdepth=4)[:120])
+            # an unnamed variable falls through to `false`
+            rest = [b2 for p2, g2, b2 in m[2] if "*" in tables.pat_ctors(p2)]
+            ok = ok and bool(rest) and all("false" in str(tables.result(b2)) for b2 in rest)
+    ctx.expect(ok, rule, fn["npath"] + "|named-and-still-free", site_of(fn), why)
+
+
 def run(ctx, fb, cfg):
     lib = fb.lib
     R = "C03."
+    check_is_anyvar(ctx, lib, R + "K6.is-anyvar")
     check_reify_threading(ctx, lib, R + "K3.reify-threads")
     check_store_walk_star(ctx, lib, R + "K3.store-walk-star")
     check_reify_goal(ctx, lib, R + "K3.reify-goal")
